@@ -101,7 +101,10 @@ def one_entry(run, f):
     run.require(async_roots == {A + "ask"}, "O14.2", "async-ask-envelopes-only-in-ask", "async functions building an ask envelope: %s (an unchecked ask path)" % sorted(async_roots),
                 "the only async function that builds an ask envelope is ActorRef::ask")
     # wrappers reach ask
-    for w in ("ask_with_timeout", "ask_join", "blocking_ask_with_timeout_impl"):
+    import anchors
+    wt_ask = (anchors.blocking_roles(f).get("blocking_ask") or {}).get("wt")
+    run.require(wt_ask is not None, "O14.2", "blocking-ask-timeout-primitive", "cannot identify the private timeout primitive behind blocking_ask", "found %s" % wt_ask)
+    for w in ("ask_with_timeout", "ask_join") + ((wt_ask[len(A):],) if wt_ask and wt_ask.startswith(A) else ()):
         fam = f.family(A + w)
         calls = [k for b in fam for k in live_calls(b) if callee(k.term) == A + "ask"]
         run.require(len(calls) == 1, "O14.2", "reaches-ask:%s" % w, "%s calls ActorRef::ask at %d sites" % (w, len(calls)), "%s goes through ActorRef::ask" % w)
@@ -139,7 +142,15 @@ def check_then_insert(run, f, det):
             eq_blocks.append((blk.idx, subj))
     caller_id, callee_id = _ids(det)
     selfask = [(bb, s) for bb, s in eq_blocks if {_strip(s[2]), _strip(s[3])} == {caller_id, callee_id} and caller_id is not None]
-    if run.require(len(selfask) == 1 and selfask[0][0] in region | {det.acquire}, "O14.6", "self-ask-test", "no comparison caller.id == callee.id under the lock (found %d)" % len(selfask),
+    # (the same comparison may occur again later, when the panic message is formatted: the test is the one that is made
+    # under the lock and decides between the panic and the registration of the edge)
+    def _false_target(bb):
+        t = b.blocks[bb].term
+        z = [tgt for v, tgt in t["arms"] if int(v) == 0]
+        return z[0] if z else (t["otherwise"] if all(int(v) != 0 for v, _ in t["arms"]) else None)
+    selfask = [(bb, s) for bb, s in selfask if bb in region | {det.acquire} and _false_target(bb) is not None and
+               (ins == _false_target(bb) or ins in cfg.reachable_from(_false_target(bb), avoid=set(det.panics)))]
+    if run.require(len(selfask) == 1, "O14.6", "self-ask-test", "no comparison caller.id == callee.id under the lock (found %d)" % len(selfask),
                    "caller.id == callee.id tested under the lock", loc=det.loc(selfask[0][0]) if selfask else None):
         sb = selfask[0][0]
         t = b.blocks[sb].term
